@@ -378,7 +378,8 @@ def cmd_canary(prop, name, tier, vseed, max_runs, wall):
 
 def run_canaries(prop, tier, vseed, eng):
     results = []
-    names = sorted(getattr(eng, 'CANARIES', {}))
+    names = [n for n in sorted(getattr(eng, 'CANARIES', {}))
+             if '.' not in n or n.startswith(prop + '.')]
     for name in names:
         env = dict(os.environ, PYTHONHASHSEED='0', VERIF_NO_REEXEC='1')
         try:
